@@ -311,6 +311,29 @@ pub mod chan {
         }
     }
 
+    pub fn s_is_empty<T>(_s: &Sender<T>) -> bool {
+        unsafe {
+            if size_of::<T>() == 0 {
+                U_LEN == 0
+            } else if is_batch::<T>() {
+                P_LEN == 0
+            } else {
+                Q_LEN == 0
+            }
+        }
+    }
+    pub fn s_len<T>(_s: &Sender<T>) -> usize {
+        unsafe {
+            if size_of::<T>() == 0 {
+                U_LEN
+            } else if is_batch::<T>() {
+                P_LEN
+            } else {
+                Q_LEN
+            }
+        }
+    }
+
     pub fn is_empty<T>(_r: &Receiver<T>) -> bool {
         unsafe {
             if size_of::<T>() == 0 {
